@@ -21,11 +21,12 @@ pub struct Spaces {
     pub t4: Corpus,
     pub t5: Corpus,
     pub t6: Corpus,
+    pub t7: Corpus,
 }
 
 impl Spaces {
-    pub fn all(&self) -> [&Corpus; 6] {
-        [&self.t1, &self.t2, &self.t3, &self.t4, &self.t5, &self.t6]
+    pub fn all(&self) -> [&Corpus; 7] {
+        [&self.t1, &self.t2, &self.t3, &self.t4, &self.t5, &self.t6, &self.t7]
     }
     pub fn total(&self) -> u64 {
         self.all().iter().map(|c| c.len()).sum()
@@ -36,8 +37,8 @@ pub fn spaces(tier: Tier) -> &'static Spaces {
     static Q: OnceLock<Spaces> = OnceLock::new();
     static T: OnceLock<Spaces> = OnceLock::new();
     match tier {
-        Tier::Quick => Q.get_or_init(|| Spaces { t1: corpus::t1(), t2: corpus::t2(corpus::small_atoms()), t3: corpus::t3(corpus::t3_default(6)), t4: corpus::t4(8), t5: corpus::t5(7), t6: corpus::t6() }),
-        Tier::Thorough => T.get_or_init(|| Spaces { t1: corpus::t1(), t2: corpus::t2(corpus::typed_atoms()), t3: corpus::t3(corpus::t3_default(7)), t4: corpus::t4(10), t5: corpus::t5(9), t6: corpus::t6() }),
+        Tier::Quick => Q.get_or_init(|| Spaces { t1: corpus::t1(), t2: corpus::t2(corpus::small_atoms()), t3: corpus::t3(corpus::t3_default(6)), t4: corpus::t4(8), t5: corpus::t5(7), t6: corpus::t6(), t7: corpus::t7(3, vec![E::Int(2), E::Val]) }),
+        Tier::Thorough => T.get_or_init(|| Spaces { t1: corpus::t1(), t2: corpus::t2(corpus::typed_atoms()), t3: corpus::t3(corpus::t3_default(7)), t4: corpus::t4(10), t5: corpus::t5(9), t6: corpus::t6(), t7: corpus::t7(4, vec![E::Val]) }),
     }
 }
 
@@ -312,8 +313,8 @@ impl Property for C01 {
         let s = spaces(tier);
         Meta {
             rule: format!(
-                "all ASTs of five grammars by size (unranked index -> AST): T1 every core operator with <=1 operator over 12 typed atoms ({} programs, 5 inputs); T2 every ordered pair of operators in both nestings ({} programs); T3 structural grammar (groups, space/comma lists, conditionals with else-chains, && ||, `;` and blank-line sequencing, side-effect blocks, nested expressions with <~ ~> ~~, identifiers, property access, bounded reapply loops) up to {} AST nodes ({} programs); T4 reapply loops `{{ T }} <~ 0`, `0 ~> {{ T }}` and top-level `T` (input as counter; inputs 5 and 0) whose body places `^~ $ + 1` / `^~ $ + 2` in every guarded position - conditional arms, else arms, chained arms, right operand of && / ||, groups, after `;` and blank-line sequencing - up to {} nodes ({} programs); T5 calls: nested expressions applied inside nested expressions by <~ ~> ~~ with additions, lists, conditionals and `;` around them, up to {} nodes ({} programs); T6 block endings: every core operator as the last thing evaluated by the right operand of && / ||, by conditional arms / conditions, under ! and ^^, over four literal pools ({} programs); each printed with minimal parentheses, run on SimpleGarnishData and BasicGarnishData and compared with the reference evaluator. Non-trivial = program with at least one operator; distinct by enumeration index (the unranking is injective).",
-                s.t1.len(), s.t2.len(), s.t3.max, s.t3.len(), s.t4.max, s.t4.len(), s.t5.max, s.t5.len(), s.t6.len()
+                "all ASTs of five grammars by size (unranked index -> AST): T1 every core operator with <=1 operator over 12 typed atoms ({} programs, 5 inputs); T2 every ordered pair of operators in both nestings ({} programs); T3 structural grammar (groups, space/comma lists, conditionals with else-chains, && ||, `;` and blank-line sequencing, side-effect blocks, nested expressions with <~ ~> ~~, identifiers, property access, bounded reapply loops) up to {} AST nodes ({} programs); T4 reapply loops `{{ T }} <~ 0`, `0 ~> {{ T }}` and top-level `T` (input as counter; inputs 5 and 0) whose body places `^~ $ + 1` / `^~ $ + 2` in every guarded position - conditional arms, else arms, chained arms, right operand of && / ||, groups, after `;` and blank-line sequencing - up to {} nodes ({} programs); T5 calls: nested expressions applied inside nested expressions by <~ ~> ~~ with additions, lists, conditionals and `;` around them, up to {} nodes ({} programs); T6 block endings: every core operator as the last thing evaluated by the right operand of && / ||, by conditional arms / conditions, under ! and ^^, over four literal pools ({} programs); T7 nesting: every one-hole context (operand positions of one operator per class, list items, evaluated conditional arms and conditions, side-effect bodies, nested-expression bodies and arguments, sequence positions, a loop body) inside every other to depth 3/4 ({} programs); each printed with minimal parentheses, run on SimpleGarnishData and BasicGarnishData and compared with the reference evaluator. Non-trivial = program with at least one operator; distinct by enumeration index (the unranking is injective).",
+                s.t1.len(), s.t2.len(), s.t3.max, s.t3.len(), s.t4.max, s.t4.len(), s.t5.max, s.t5.len(), s.t6.len(), s.t7.len()
             ),
             assumptions: vec![
                 "reference evaluator engine/src/refeval.rs is the statement of the core-language semantics (DESIGN.md appendix A); constructs it declines (ranges, slices, casts, float indexes, duplicate keys, shifts with unrepresentable product) are counted, not judged".into(),
